@@ -65,6 +65,7 @@ type hist struct {
 	blocksInEpoch int
 	blockNo       int
 	nReorgs       int
+	diag          tr.M
 	floods        int
 	forced        []*txRec       // when non-nil: exactly these submissions for the coming block
 	graphSent     map[int]uint64 // edge index -> height of the last DelegateTx submission
@@ -816,13 +817,43 @@ func (h *hist) block() bool {
 				body = append(body, rec.m)
 			}
 		}
-		h.out.Emit(tr.M{"ev": "Diag", "hid": h.id, "h": height, "reproposals": roots, "errors": full, "body": body,
+		// does the VALIDATING path, run by the proposer itself on the very same body, give a block everybody accepts?
+		craftedOk := false
+		if c, cerr := prop.n.Chain.VerifCraftBlock(blk.Body.Transactions, blk.Header.Time()); cerr == nil {
+			craftedOk = true
+			cd := sim.Encode(c)
+			for _, r := range h.reps {
+				if r.n.Chain.Head.Height()+1 == height && r.n.Validate(cd) != nil {
+					craftedOk = false
+				}
+			}
+		}
+		// what the pool offered beyond the body (transactions the proposer's filter attempted and skipped)
+		inBody := map[string]bool{}
+		for _, tx := range blk.Body.Transactions {
+			inBody[tx.Hash().Hex()] = true
+		}
+		var skipped []tr.M
+		for _, tx := range prop.n.Pool.BuildBlockTransactions() {
+			if inBody[tx.Hash().Hex()] {
+				continue
+			}
+			m := tr.M{"type": int(tx.Type), "toHasIdentityRecord": true, "to": ""}
+			if tx.To != nil {
+				m["to"] = h.w.Name(*tx.To)
+				id := h.ref.n.App.State.GetIdentity(*tx.To)
+				m["toHasIdentityRecord"] = !(id.State == state.Undefined && common.ZeroOrNil(id.Stake) && len(id.PubKey) == 0 && id.Inviter == nil && len(id.Invitees) == 0)
+			}
+			skipped = append(skipped, m)
+		}
+		h.diag = tr.M{"nondet": len(roots) > 1, "sameBodyThroughValidatingPathAccepted": craftedOk, "skipped": skipped}
+		h.out.Emit(tr.M{"ev": "Diag", "hid": h.id, "h": height, "reproposals": roots, "errors": full, "body": body, "summary": h.diag,
 			"block": fmt.Sprintf("%x/%x/txs=%d", blk.Root().Bytes()[:6], blk.IdentityRoot().Bytes()[:6], len(blk.Body.Transactions))})
 	}
 	if h.ref.n.Chain.Head.Height() != height {
 		// the block was refused by the reference: log it and stop this history
 		h.out.Emit(tr.M{"ev": "Block", "hid": h.id, "h": height, "kind": kindOf(blk), "proposer": prop.name, "verdicts": verdicts,
-			"hists": hists, "obs": obs, "refused": true, "subs": subs, "canon": canon, "flags": int(flags)})
+			"hists": hists, "obs": obs, "refused": true, "subs": subs, "canon": canon, "flags": int(flags), "diag": h.diag})
 		return false
 	}
 	h.blocksInEpoch++
@@ -1121,6 +1152,7 @@ func main() {
 	epochs := flag.Bool("epochs", true, "drive validation periods and epoch transitions")
 	schedFile := flag.String("sched", "", "history-shape schedules exported by TLC (json lines)")
 	replays := flag.Bool("replays", false, "offer crafted blocks that re-include / mis-sign transactions")
+	doubleDeleg := flag.Bool("double-delegate", false, "run the minimal double-DelegateTx scenario first (history id 900)")
 	only := flag.Int("only", -1, "run only the history with this index (same seeds and schedules as in a full run)")
 	relFile := flag.String("rel", "", "relationship attempt paths exported by TLC from Relations.tla (json lines)")
 	graphFile := flag.String("graphs", "", "delegation graphs exported by TLC from EpochLoop.tla (json lines); one history per graph")
@@ -1157,6 +1189,30 @@ func main() {
 		return
 	}
 	blocks, refused := 0, 0
+	if *doubleDeleg {
+		// minimal reproduction of the filter side effect: a validated identity submits two DelegateTx with consecutive
+		// nonces, the second one to an address that has no identity record; every pool admits both, the proposer's filter
+		// includes the first and skips the second
+		cfg := &scenCfg{blocks: 12, epochs: false, nProposers: 6, relQuiet: true}
+		h := newHist(seed, 900, cfg, w)
+		h.start()
+		for b := 0; b < 3; b++ {
+			h.forced = []*txRec{}
+			h.block()
+		}
+		pend := map[int]uint32{}
+		t1, t2 := h.w.Addrs[2], h.w.Addrs[20]
+		r1 := h.mkTx(1, types.DelegateTx, &t1, nil, nil, 0, 0, pend)
+		pend[1]++
+		r2 := h.mkTx(1, types.DelegateTx, &t2, nil, nil, 0, 0, pend)
+		h.forced = []*txRec{r1, r2}
+		if h.block() {
+			blocks++
+		} else {
+			refused++
+		}
+		blocks += 3
+	}
 	var graphs [][][2]int
 	if *graphFile != "" {
 		tr.ReadLines(*graphFile, func(raw []byte) {
